@@ -110,8 +110,12 @@ func rateShape(s string) string {
 func h6File(env *Env, c *H1Cfg, hr *h1Run, runIdx int, stats simrt.Stats) {
 	g := hr.GT
 	fe := c.File
-	if g.DoPanic != "" || g.TrigErr != "" || g.NewRunErr != "" || !hr.HaveTrig {
+	if g.DoPanic != "" || g.TrigErr != "" || g.NewRunErr != "" || (!hr.HaveTrig && c.Driver == "api") {
 		env.PrecondNotMet("C15")
+		return
+	}
+	if c.Driver != "api" && g.SetupCalls == 0 {
+		env.PrecondNotMet("C15") // rejected on the command line
 		return
 	}
 	now := g.DoCalledNs
@@ -123,7 +127,41 @@ func h6File(env *Env, c *H1Cfg, hr *h1Run, runIdx int, stats simrt.Stats) {
 			kept = append(kept, j)
 		}
 	}
-	// ---- plan
+	// ---- limits honoured by the run (both drivers): verdict from the limits section and the run's own counts
+	if hr.HaveResult || hr.HaveCounts {
+		succ, fail, drop := hr.Snap.Succ, hr.Snap.Fail, hr.Snap.Drop
+		total := succ + fail + drop
+		var tol bool
+		if fe.MaxFailures == 0 && fe.MaxFailRate == 0 {
+			tol = fail > 0
+		} else {
+			tol = (fe.MaxFailures > 0 && fail > fe.MaxFailures) || (fe.MaxFailRate > 0 && total > 0 && fail*100 > uint64(fe.MaxFailRate)*total)
+		}
+		want := (!fe.IgnoreDropped && drop > 0) || tol
+		got := hr.Failed
+		if c.Driver != "api" {
+			got = hr.CliErr != ""
+		}
+		if got != want && hr.ErrStr == "" {
+			env.Violate("C15", "limits-not-honoured", "file/limits/"+c.Driver, "run failed=%v; the limits section (ignore-dropped=%v max-failures=%d max-failures-rate=%d) with successful=%d failed=%d dropped=%d gives %v (%s)",
+				got, fe.IgnoreDropped, fe.MaxFailures, fe.MaxFailRate, succ, fail, drop, want, hr.CliErr)
+		}
+		if fe.MaxIterations > 0 && uint64(len(g.Bodies)) > fe.MaxIterations {
+			env.Violate("C15", "limits-not-honoured", "file/limits/max-iterations", "%d iterations ran, the limits section says max-iterations %d", len(g.Bodies), fe.MaxIterations)
+		}
+		env.Hit("h6.limits_checked")
+		if drop > 0 {
+			env.Hit("h6.limits_checked_with_drops")
+		}
+	}
+	if hr.HaveTrig {
+		h6FilePlan(env, c, hr, runIdx, kept, now)
+	}
+	h6FileRuntime(env, c, hr, stats, kept)
+}
+
+func h6FilePlan(env *Env, c *H1Cfg, hr *h1Run, runIdx int, kept []int, now int64) {
+	fe := c.File
 	if hr.TrigDurNs != fe.TotalNs {
 		env.Violate("C15", "plan-total-duration", "file/plan", "trigger duration %s, the stages sum to %s", dur(hr.TrigDurNs), dur(fe.TotalNs))
 	}
@@ -144,15 +182,18 @@ func h6File(env *Env, c *H1Cfg, hr *h1Run, runIdx int, stats simrt.Stats) {
 	if runIdx > 0 {
 		env.Hit("h6.restart_checked")
 	}
-	// ---- run time
+}
+
+func h6FileRuntime(env *Env, c *H1Cfg, hr *h1Run, stats simrt.Stats, kept []int) {
+	g, fe := hr.GT, c.File
 	for _, k := range sortedKeys(g.EnvAfter) {
 		v := g.EnvAfter[k]
 		env.Violate("C15", "parameter-left-in-environment", "file/env", "after the run returned %s=%q is still set in the environment", k, v)
 		break
 	}
-	idOrder := map[string]int{}
+	idOrder := map[string][]int{} // a stage may occur twice (twin stages share their id)
 	for pos, j := range kept {
-		idOrder[fe.Stages[j].ID] = pos
+		idOrder[fe.Stages[j].ID] = append(idOrder[fe.Stages[j].ID], pos)
 	}
 	last := -1
 	for _, b := range g.Bodies {
@@ -160,12 +201,19 @@ func h6File(env *Env, c *H1Cfg, hr *h1Run, runIdx int, stats simrt.Stats) {
 		if !ok {
 			continue
 		}
-		pos, known := idOrder[id]
+		poss, known := idOrder[id]
 		if !known {
 			env.Violate("C15", "finished-stage-ran", "file/order", "iteration %s ran with F1V_STAGE_ID=%q, which is not one of the unfinished stages %v", b.Iter, id, keptIDs(fe, kept))
 			return
 		}
-		if pos < last {
+		pos := -1
+		for _, p := range poss {
+			if p >= last {
+				pos = p
+				break
+			}
+		}
+		if pos < 0 {
 			env.Violate("C15", "stage-order", "file/order", "iteration %s saw stage %q after a later stage had already been seen", b.Iter, id)
 			return
 		}
@@ -184,6 +232,7 @@ func h6File(env *Env, c *H1Cfg, hr *h1Run, runIdx int, stats simrt.Stats) {
 		stop = g.CancelNs
 	}
 	s0 := start
+	twinBegun := map[string]int{}
 	for _, j := range kept {
 		st := fe.Stages[j]
 		w0, w1 := s0, s0+st.DurNs-20*ms
@@ -214,6 +263,16 @@ func h6File(env *Env, c *H1Cfg, hr *h1Run, runIdx int, stats simrt.Stats) {
 			env.Hit("h6.stage_env_checked")
 		}
 		whole := w1 <= stop && fe.MaxIterations == 0
+		if whole && st.Def != "" && hr.Snap.Drop == 0 && (hr.HaveResult || hr.HaveCounts) {
+			if prevBegun, seen := twinBegun[st.Def]; seen && prevBegun != begun {
+				env.Violate("C15", "twin-stages-differ", "file/twin/"+st.Mode, "stage %s (%s for %s) is defined twice in the file: its first occurrence started %d iterations, this one %d",
+					st.ID, st.Mode, dur(st.DurNs), prevBegun, begun)
+				return
+			} else if seen {
+				env.Hit("h6.twin_stages_checked")
+			}
+			twinBegun[st.Def] = begun
+		}
 		if whole && st.Mode == "constant" && st.TickNs > 0 && (st.DurNs-20*ms)%st.TickNs != 0 && st.TickRate <= fe.Concurrency {
 			want := st.TickRate * int(1+(st.DurNs-20*ms)/st.TickNs)
 			if begun != want {
